@@ -1,6 +1,7 @@
 #!/bin/bash
 # development aid: apply a patch to the scratch worktree /tmp/dev_repo, build the rt runner into /verif/build_dev, run one case file, revert.
 # usage: dev_try.sh <patch.diff> <case.txt> [runner args...]
+[ -d /tmp/dev_repo ] || git -C /repo worktree add -q --detach /tmp/dev_repo HEAD  # scratch worktree; remove with: git -C /repo worktree remove --force /tmp/dev_repo
 P=$1; C=$2; shift 2
 git -C /tmp/dev_repo checkout -q -- . && git -C /tmp/dev_repo apply "$P" || exit 2
 VERIF_REPO=/tmp/dev_repo /verif/build.sh rt /verif/build_dev 2>&1 | tail -1
